@@ -79,7 +79,7 @@ Section Frame.
 
   (* ---------------------------------------------------------------- well-formedness *)
   Definition wf_frag (f : frag) : Prop :=
-    NoDup (dels_of f) /\ (forall o, In o (dels_of f) -> o < frag_rows f)
+    (forall o, In o (dels_of f) -> o < frag_rows f)
     /\ (forall d, In d (f_files f) -> live_file d = true -> frows (d_id d) = frag_rows f).
   Definition wf_schema (s : schema) : Prop := forall x, In x (schema_ids s) -> x <> (-2)%Z.
   Definition wf_maxfid (m : manifest) : Prop :=
@@ -92,15 +92,15 @@ Section Frame.
 
   Lemma wf_frag_detomb : forall f, wf_frag f -> wf_frag (detomb f).
   Proof.
-    intros f [H1 [H2 H3]]. unfold wf_frag. rewrite frag_rows_detomb. unfold dels_of. rewrite detomb_del.
-    split; [exact H1 | split; [exact H2|]]. intros d Hd Hl. unfold detomb in Hd. cbn [f_files set_files] in Hd.
+    intros f [H2 H3]. unfold wf_frag. rewrite frag_rows_detomb. unfold dels_of. rewrite detomb_del.
+    split; [exact H2|]. intros d Hd Hl. unfold detomb in Hd. cbn [f_files set_files] in Hd.
     apply filter_In in Hd as [Hd _]. exact (H3 d Hd Hl).
   Qed.
-  Lemma wf_frag_set_del : forall f i dv, wf_frag f -> NoDup dv -> (forall o, In o dv -> o < frag_rows f) ->
+  Lemma wf_frag_set_del : forall f i dv, wf_frag f -> (forall o, In o dv -> o < frag_rows f) ->
     wf_frag (set_del f (Some (i, dv))).
   Proof.
-    intros f i dv [_ [_ H3]] Hn Hlt. unfold wf_frag. cbn [dels_of set_del f_del snd f_files].
-    split; [exact Hn | split; [exact Hlt | exact H3]].
+    intros f i dv [_ H3] Hlt. unfold wf_frag. cbn [dels_of set_del f_del snd f_files].
+    split; [exact Hlt | exact H3].
   Qed.
 
   (* max_fragment_id of a well-formed manifest is its stored value *)
@@ -359,7 +359,7 @@ Section Frame.
   Qed.
   Lemma frag_rows_proj : forall s f, wf_schema s -> wf_frag f -> keeps_file s f -> frag_rows (proj_files s f) = frag_rows f.
   Proof.
-    intros s f Hs [_ [_ Hw]] [d [Hd Ho]]. unfold Model_Txn.frag_rows at 1. unfold proj_files. cbn [f_files set_files].
+    intros s f Hs [_ Hw] [d [Hd Ho]]. unfold Model_Txn.frag_rows at 1. unfold proj_files. cbn [f_files set_files].
     destruct (find_some_first live_file (filter (fun d0 => overlapZ (d_fields d0) (schema_ids s)) (f_files f))) as [e [E [He Hl]]].
     { exists d. split; [apply filter_In; split; assumption | exact (overlap_live s d Hs Ho)]. }
     rewrite E. apply filter_In in He as [He _]. exact (Hw e He Hl).
@@ -372,8 +372,8 @@ Section Frame.
   Qed.
   Lemma wf_frag_proj : forall s f, wf_schema s -> wf_frag f -> keeps_file s f -> wf_frag (proj_files s f).
   Proof.
-    intros s f Hs Hw Hk. pose proof (frag_rows_proj s f Hs Hw Hk) as Er. destruct Hw as [H1 [H2 H3]].
-    unfold wf_frag. rewrite Er. split; [exact H1 | split; [exact H2|]]. intros d Hd Hl.
+    intros s f Hs Hw Hk. pose proof (frag_rows_proj s f Hs Hw Hk) as Er. destruct Hw as [H2 H3].
+    unfold wf_frag. rewrite Er. split; [exact H2|]. intros d Hd Hl.
     unfold proj_files in Hd. cbn [f_files set_files] in Hd. apply filter_In in Hd as [Hd _]. exact (H3 d Hd Hl).
   Qed.
 End Frame.
